@@ -67,6 +67,13 @@ fn msg(v: &Value) -> PingPongMessage {
         _ => unreachable!(),
     }
 }
+/// Every message an aggregator hands to the network goes through its wire encoding: it must encode, advertise exactly the
+/// produced length, and decode back to itself.
+fn wire_ok(m: &PingPongMessage) -> Result<(), String> {
+    let w = m.get_encoded().map_err(|e| format!("outbound message does not encode: {e}"))?;
+    if m.encoded_len() != Some(w.len()) { return Err(format!("outbound message encoded_len {:?} vs {} bytes", m.encoded_len(), w.len())); }
+    match PingPongMessage::get_decoded(&w) { Ok(b) if &b == m => Ok(()), _ => Err("outbound message does not survive its wire encoding".into()) }
+}
 fn ekind(e: &PingPongError) -> &'static str {
     match e { PingPongError::VdafVerifyInit(_) => "VdafVerifyInit", PingPongError::VdafVerifierSharesToMessage(_) => "VdafVerifierSharesToMessage",
         PingPongError::VdafVerifyNext(_) => "VdafVerifyNext", PingPongError::CodecVerifierShare(_) => "CodecVerifierShare",
@@ -79,10 +86,11 @@ fn check_state(exp: &Value, got: Result<PingPongState<St, OS>, PingPongError>) -
         ("err", Err(e)) => if ekind(&e) == exp["e"].as_str().unwrap() { Ok(None) } else { Err(format!("err kind {} vs {}", ekind(&e), exp["e"])) },
         ("continued", Ok(PingPongState::Continued(Continued { message, verifier_state }))) => {
             if message != msg(&exp["msg"]) { return Err("continued msg".into()); }
+            wire_ok(&message)?;
             if verifier_state != vs(&exp["vs"]) { return Err("continued state".into()); }
             Ok(Some(verifier_state)) }
         ("finished_with_outbound", Ok(PingPongState::FinishedWithOutbound { output_share, message })) => {
-            if message != msg(&exp["msg"]) || output_share.0 as u64 != exp["out"][1].as_u64().unwrap() { return Err("fwo".into()); } Ok(None) }
+            if message != msg(&exp["msg"]) || output_share.0 as u64 != exp["out"][1].as_u64().unwrap() { return Err("fwo".into()); } wire_ok(&message)?; Ok(None) }
         ("output", Ok(PingPongState::Finished { output_share })) => { if output_share.0 as u64 != exp["out"][1].as_u64().unwrap() { return Err("out".into()); } Ok(None) }
         (t, g) => Err(format!("expected {t} got {:?}", g.map(|_| "ok-other").map_err(|e| ekind(&e)))),
     }
@@ -96,6 +104,7 @@ fn run(rounds: u8, hist: &Value) -> Result<(), String> {
             "linit" => {
                 let c = v.leader_initialized(&[], b"c", &ap, &nonce, &(), &IS(0)).map_err(|e| step(ekind(&e).into()))?;
                 if c.message != msg(&st["res"]["msg"]) { return Err(step("linit msg".into())); }
+                wire_ok(&c.message).map_err(step)?;
                 l = Some(c.verifier_state);
             }
             a => {
@@ -232,6 +241,7 @@ macro_rules! real_replay {
                             "linit" => {
                                 let c = v.leader_initialized(key, ctx, ap, nonce, public, &shares[0]).map_err(|e| step(ekind(&e).into()))?;
                                 if c.message != t.msg(&st["res"]["msg"]).map_err(step)? { return Err(step("linit msg".into())); }
+                                wire_ok(&c.message).map_err(step)?;
                                 if c.verifier_state.get_encoded().unwrap() != t.st[0][0] { return Err(step("linit state".into())); }
                                 l = Some(c.verifier_state);
                             }
@@ -267,12 +277,14 @@ macro_rules! real_replay {
                                     ("err", Some(_)) => return Err(step("out-of-place message accepted".into())),
                                     ("continued", Some(PingPongState::Continued(Continued { message, verifier_state }))) => {
                                         if message != t.msg(&exp["msg"]).map_err(step)? { return Err(step("continued msg".into())); }
+                                        wire_ok(&message).map_err(step)?;
                                         let r = exp["vs"][2].as_u64().unwrap() as usize;
                                         if verifier_state.get_encoded().unwrap() != t.st[host][r] { return Err(step("continued state".into())); }
                                         if to_leader { l = Some(verifier_state); } else { h = Some(verifier_state); hstarted = true; }
                                     }
                                     ("finished_with_outbound", Some(PingPongState::FinishedWithOutbound { output_share, message })) => {
                                         if message != t.msg(&exp["msg"]).map_err(step)? { return Err(step("fwo msg".into())); }
+                                        wire_ok(&message).map_err(step)?;
                                         if output_share.get_encoded().unwrap() != t.out[host] { return Err(step("fwo output share differs from broadcast".into())); }
                                         if to_leader { l = None; } else { h = None; hstarted = true; }
                                     }
@@ -318,6 +330,10 @@ pub fn replay_real(rounds: u8, seed: u64, lines: impl Iterator<Item = String>) {
           let v = Prio3::<SumVec<Field128, ParallelSum<Field128, Mul>>, XofTurboShake128, 32>::new(2, 2, 0xFFFF_1203, SumVec::new(3, 4, 3).unwrap()).unwrap();
           let (p, s) = v.shard(b"c12", &vec![1, 0, 3, 2], &nonce).unwrap();
           real_replay!("Prio3SumVecMultiproof", v, 32, key32, b"c12", (), nonce, p, s, 1, hists, tl); }
+        // verifier shares above 64 KiB (chunk length 2100): the 32-bit length prefixes of the message framing
+        { let v = Prio3::new_sum_vec(2, 1, 2200, 2100).unwrap(); let (p, s) = v.shard(b"c12", &vec![1u128; 2200], &nonce).unwrap();
+          let few: Vec<Value> = hists.iter().step_by(9).cloned().collect();
+          real_replay!("Prio3SumVecBigChunk", v, 32, key32, b"c12", (), nonce, p, s, 1, few, tl); }
     } else if rounds == 2 {
         for (name, bits, level) in [("Poplar1Inner", 4usize, 1usize), ("Poplar1Leaf", 3, 2)] {
             let v = Poplar1::new_turboshake128(bits);
